@@ -110,3 +110,153 @@ pub proof fn lemma_flags_follow(sd1: Showdown, ps1: Seq<CardPair>, b1: Seq<Card>
         }
     }
 }
+
+// ---------- C11 (counting step): equal per-deal outcomes along an injective re-indexing give equal tallies ----------
+
+pub open spec fn count_true(f: Seq<bool>) -> int
+    decreases f.len()
+{
+    if f.len() == 0 { 0 } else { count_true(f.drop_last()) + if f.last() { 1int } else { 0int } }
+}
+
+/// player p is flagged in a showdown with exactly k winners (k == 1: outright win, k > 1: k-way tie)
+pub open spec fn hit(f: Seq<bool>, p: int, k: int) -> bool { 0 <= p < f.len() && f[p] && count_true(f) == k }
+
+/// the tally of player p over a run: the number of showdowns (flag vectors) in which p is one of exactly k winners
+pub open spec fn tally(outs: Seq<Seq<bool>>, p: int, k: int) -> int
+    decreases outs.len()
+{
+    if outs.len() == 0 { 0 } else { tally(outs.drop_last(), p, k) + if hit(outs.last(), p, k) { 1int } else { 0int } }
+}
+
+pub proof fn lemma_tally_remove(outs: Seq<Seq<bool>>, j: int, p: int, k: int)
+    requires 0 <= j < outs.len(),
+    ensures tally(outs, p, k) == tally(outs.remove(j), p, k) + if hit(outs[j], p, k) { 1int } else { 0int },
+    decreases outs.len()
+{
+    if j == outs.len() - 1 {
+        assert(outs.remove(j) =~= outs.drop_last());
+    } else {
+        lemma_tally_remove(outs.drop_last(), j, p, k);
+        assert(outs.remove(j).drop_last() =~= outs.drop_last().remove(j));
+        assert(outs.remove(j).last() == outs.last());
+    }
+}
+
+/// two runs of equal length; phi sends the i-th showdown of the first to a showdown of the second, injectively, and the
+/// two agree on "player p1 / p2 is one of exactly k winners": then the tallies agree.  (An injective map between two
+/// runs of the same length is a bijection; only injectivity is used.)
+pub proof fn lemma_tally_rearranged(o1: Seq<Seq<bool>>, o2: Seq<Seq<bool>>, phi: spec_fn(int) -> int, p1: int, p2: int, k: int)
+    requires
+        o1.len() == o2.len(),
+        forall|i: int| 0 <= i < o1.len() ==> 0 <= #[trigger] phi(i) < o2.len(),
+        forall|a: int, b: int| 0 <= a < b < o1.len() ==> #[trigger] phi(a) != #[trigger] phi(b),
+        forall|i: int| 0 <= i < o1.len() ==> hit(o2[#[trigger] phi(i)], p2, k) == hit(o1[i], p1, k),
+    ensures tally(o2, p2, k) == tally(o1, p1, k),
+    decreases o1.len()
+{
+    if o1.len() > 0 {
+        let n = o1.len() as int;
+        let j = phi(n - 1);
+        let psi = |i: int| if phi(i) < j { phi(i) } else { phi(i) - 1 };
+        let a1 = o1.drop_last();
+        let a2 = o2.remove(j);
+        assert forall|i: int| 0 <= i < a1.len() implies 0 <= #[trigger] psi(i) < a2.len() by {
+            assert(phi(i) != phi(n - 1));
+        }
+        assert forall|a: int, b: int| 0 <= a < b < a1.len() implies #[trigger] psi(a) != #[trigger] psi(b) by {
+            assert(phi(a) != phi(b));
+            assert(phi(a) != j && phi(b) != j);
+        }
+        assert forall|i: int| 0 <= i < a1.len() implies hit(a2[#[trigger] psi(i)], p2, k) == hit(a1[i], p1, k) by {
+            assert(phi(i) != phi(n - 1));
+            assert(a2[psi(i)] == o2[phi(i)]);
+            assert(a1[i] == o1[i]);
+        }
+        lemma_tally_rearranged(a1, a2, psi, p1, p2, k);
+        lemma_tally_remove(o2, j, p2, k);
+        assert(hit(o2[phi(n - 1)], p2, k) == hit(o1[n - 1], p1, k));
+    }
+}
+
+/// count_true is invariant under re-indexing the players (f2[i] == f1[pi(i)], pi injective into the same length)
+pub proof fn lemma_count_remove(f: Seq<bool>, j: int)
+    requires 0 <= j < f.len(),
+    ensures count_true(f) == count_true(f.remove(j)) + if f[j] { 1int } else { 0int },
+    decreases f.len()
+{
+    if j == f.len() - 1 {
+        assert(f.remove(j) =~= f.drop_last());
+    } else {
+        lemma_count_remove(f.drop_last(), j);
+        assert(f.remove(j).drop_last() =~= f.drop_last().remove(j));
+        assert(f.remove(j).last() == f.last());
+    }
+}
+
+pub proof fn lemma_count_perm(f1: Seq<bool>, f2: Seq<bool>, pi: spec_fn(int) -> int)
+    requires
+        f1.len() == f2.len(),
+        forall|i: int| 0 <= i < f2.len() ==> 0 <= #[trigger] pi(i) < f1.len(),
+        forall|a: int, b: int| 0 <= a < b < f2.len() ==> #[trigger] pi(a) != #[trigger] pi(b),
+        forall|i: int| 0 <= i < f2.len() ==> f2[i] == f1[#[trigger] pi(i)],
+    ensures count_true(f2) == count_true(f1),
+    decreases f2.len()
+{
+    if f2.len() > 0 {
+        let n = f2.len() as int;
+        let j = pi(n - 1);
+        let psi = |i: int| if pi(i) < j { pi(i) } else { pi(i) - 1 };
+        let a2 = f2.drop_last();
+        let a1 = f1.remove(j);
+        assert forall|i: int| 0 <= i < a2.len() implies 0 <= #[trigger] psi(i) < a1.len() by {
+            assert(pi(i) != pi(n - 1));
+        }
+        assert forall|a: int, b: int| 0 <= a < b < a2.len() implies #[trigger] psi(a) != #[trigger] psi(b) by {
+            assert(pi(a) != pi(b));
+            assert(pi(a) != j && pi(b) != j);
+        }
+        assert forall|i: int| 0 <= i < a2.len() implies a2[i] == a1[#[trigger] psi(i)] by {
+            assert(pi(i) != pi(n - 1));
+            assert(a1[psi(i)] == f1[pi(i)]);
+            assert(a2[i] == f2[i]);
+        }
+        lemma_count_perm(a1, a2, psi);
+        lemma_count_remove(f1, j);
+        assert(f2[n - 1] == f1[pi(n - 1)]);
+    }
+}
+
+/// the flag vector of a showdown, and its number of winners
+pub open spec fn flags_of(ps: Seq<ShowdownPlayer>) -> Seq<bool> { Seq::new(ps.len(), |i: int| ps[i].win) }
+
+pub proof fn lemma_count_is_win_count(ps: Seq<ShowdownPlayer>)
+    ensures count_true(flags_of(ps)) == win_count(ps),
+    decreases ps.len()
+{
+    if ps.len() > 0 {
+        lemma_count_is_win_count(ps.drop_last());
+        assert(flags_of(ps).drop_last() =~= flags_of(ps.drop_last()));
+        assert(flags_of(ps).last() == ps.last().win);
+    }
+}
+
+/// L11b + counting inside one showdown: under strengths_follow (suit relabelling: pi = identity; reordered players: pi
+/// their permutation) player i of the second showdown is one of exactly k winners iff player pi(i) of the first is
+pub proof fn lemma_hit_follows(sd1: Showdown, ps1: Seq<CardPair>, b1: Seq<Card>, pr1: f32,
+                               sd2: Showdown, ps2: Seq<CardPair>, b2: Seq<Card>, pr2: f32,
+                               pi: spec_fn(int) -> int, inv: spec_fn(int) -> int, i: int, k: int)
+    requires is_showdown_of(sd1, ps1, b1, pr1), is_showdown_of(sd2, ps2, b2, pr2), strengths_follow(ps1, b1, ps2, b2, pi, inv), 0 <= i < ps2.len(),
+    ensures hit(flags_of(sd2.players@), i, k) == hit(flags_of(sd1.players@), pi(i), k),
+{
+    lemma_flags_follow(sd1, ps1, b1, pr1, sd2, ps2, b2, pr2, pi, inv);
+    let f1 = flags_of(sd1.players@);
+    let f2 = flags_of(sd2.players@);
+    assert forall|a: int, b: int| 0 <= a < b < f2.len() implies #[trigger] pi(a) != #[trigger] pi(b) by {
+        assert(inv(pi(a)) == a && inv(pi(b)) == b);
+    }
+    assert forall|j: int| 0 <= j < f2.len() implies f2[j] == f1[#[trigger] pi(j)] by {
+        assert(sd2.players@[j].win == sd1.players@[pi(j)].win);
+    }
+    lemma_count_perm(f1, f2, pi);
+}
